@@ -142,7 +142,34 @@ def parse_log(text, r):
         r.reason = "no verification verdict (compile error, ICE, timeout or OOM): " + tail
 
 
+# Memory-aware admission: the machine has no swap, so the sum of the *expected* peaks of the
+# harnesses running at once stays below MEM_BUDGET_GB (a harness with an explicit mem_gb counts
+# with that value, every other one with 4 GB - measured winners need 0.8-3 GB).
+import threading
+MEM_BUDGET_GB = int(os.environ.get("VERIF_MEM_BUDGET_GB", "52"))
+_mem_cv = threading.Condition()
+_mem_used = [0]
+
+
+def _weight(h):
+    return min(MEM_BUDGET_GB, int(getattr(h, "mem_gb", None) or 4))
+
+
 def run_harness(root, h, workdir, extra_flags=()):
+    w = _weight(h)
+    with _mem_cv:
+        while _mem_used[0] + w > MEM_BUDGET_GB and _mem_used[0] > 0:
+            _mem_cv.wait()
+        _mem_used[0] += w
+    try:
+        return _run_harness(root, h, workdir, extra_flags)
+    finally:
+        with _mem_cv:
+            _mem_used[0] -= w
+            _mem_cv.notify_all()
+
+
+def _run_harness(root, h, workdir, extra_flags=()):
     r = Result(h)
     tdir = os.path.join(workdir, "t_" + h.name)
     if os.path.isdir(DEPS_CACHE) and not os.path.isdir(tdir):
